@@ -87,7 +87,11 @@ class PDFToPNG(object):
                 outputc = context["output"]
                 outputc["filetype"] = "png"
                 pdf_name = data
-                data = pdf_name.replace(".pdf", "")
+                if pdf_name.endswith(".pdf"):
+                    # only the extension (see LaTeXToPDF)
+                    data = pdf_name[:-len(".pdf")]
+                else:
+                    data = pdf_name.replace(".pdf", "")
                 if not os.path.exists(data + "." + self._format)\
                     or self._overwrite or outputc.get("changed", False):
                     # pdftopng adds -00001 suffix, no way to disable that.
